@@ -253,5 +253,43 @@ pub fn run(out: &mut Out, tier: &str, seed: u64) {
         }
     }
     { let mut rng2 = Rng::new(seed, "c16-extra"); crate::objapi::conversions(out, &mut rng2); }
+    { let mut rng2 = Rng::new(seed, "c16-keys"); keypair_roundtrips(out, &mut rng2); }
     { let mut rng2 = Rng::new(seed, "c16-extra2"); crate::objapi::serde_field_lengths(out, &mut rng2); crate::objapi::argon2i_record(out, &mut rng2); }
+}
+
+/// key pairs written out as their key bytes and rebuilt from them (from the secret key alone, or from both slices) are the
+/// same pair, in every container
+fn keypair_roundtrips(out: &mut Out, rng: &mut Rng) {
+    use dryoc::keypair::KeyPair;
+    use dryoc::sign::SigningKeyPair;
+    for r in 0..4 {
+        let seed: [u8; 32] = rng.arr();
+        let rp = json!({"op":"keypair.bytes-roundtrip","seed":hx(&seed),"round":r});
+        let check = |out: &mut Out, name: &str, got: Outcome<Vec<u8>>, want: &[u8]| {
+            out.search_evaluations += 1;
+            match got { Outcome::Ok(g) if g == want => {}, Outcome::Ok(_) => out.hit(&format!("{}.roundtrip-differs", name), "another key pair came back".into(), rp.clone()),
+                        o => out.hit(&format!("{}.roundtrip-fails", name), o.class().to_string(), rp.clone()) }
+        };
+        // signing pair
+        let skp = SigningKeyPair::<StackByteArray<32>, StackByteArray<64>>::from_seed(&seed);
+        let (pk, sk) = (skp.public_key.to_vec(), skp.secret_key.to_vec());
+        let want = [pk.clone(), sk.clone()].concat();
+        check(out, "sign.keypair.from_secret_key", guard_total(|| { let k = SigningKeyPair::<StackByteArray<32>, StackByteArray<64>>::from_secret_key(StackByteArray::<64>::try_from(&sk[..]).unwrap()); [k.public_key.to_vec(), k.secret_key.to_vec()].concat() }), &want);
+        check(out, "sign.keypair.from_secret_key(vec)", guard_total(|| { let k = SigningKeyPair::<Vec<u8>, Vec<u8>>::from_secret_key(sk.clone()); [k.public_key.clone(), k.secret_key.clone()].concat() }), &want);
+        check(out, "sign.keypair.from_slices", guard(|| SigningKeyPair::<StackByteArray<32>, StackByteArray<64>>::from_slices(&pk, &sk)).map(|k| [k.public_key.to_vec(), k.secret_key.to_vec()].concat()), &want);
+        check(out, "sign.keypair.from_slices(vec)", guard(|| SigningKeyPair::<Vec<u8>, Vec<u8>>::from_slices(&pk, &sk)).map(|k| [k.public_key.clone(), k.secret_key.clone()].concat()), &want);
+        // and the rebuilt pair signs what the original verifies
+        { let m = rng.bytes(11);
+          let k2 = SigningKeyPair::<StackByteArray<32>, StackByteArray<64>>::from_secret_key(StackByteArray::<64>::try_from(&sk[..]).unwrap());
+          let ok = guard(|| { let sm: dryoc::sign::VecSignedMessage = k2.sign_with_defaults(m.clone())?; sm.verify(&skp.public_key) });
+          if !ok.is_ok() { out.hit("sign.keypair.from_secret_key.signature-not-verified-by-original-key", ok.class().to_string(), rp.clone()); } }
+        // box / key-exchange pair
+        let bkp = dryoc::keypair::StackKeyPair::from_seed(&seed);
+        let (bpk, bsk) = (bkp.public_key.to_vec(), bkp.secret_key.to_vec());
+        let bwant = [bpk.clone(), bsk.clone()].concat();
+        check(out, "keypair.from_secret_key", guard_total(|| { let k = dryoc::keypair::StackKeyPair::from_secret_key(StackByteArray::<32>::try_from(&bsk[..]).unwrap()); [k.public_key.to_vec(), k.secret_key.to_vec()].concat() }), &bwant);
+        check(out, "keypair.from_secret_key(vec)", guard_total(|| { let k = KeyPair::<Vec<u8>, Vec<u8>>::from_secret_key(bsk.clone()); [k.public_key.clone(), k.secret_key.clone()].concat() }), &bwant);
+        check(out, "keypair.from_slices", guard(|| dryoc::keypair::StackKeyPair::from_slices(&bpk, &bsk)).map(|k| [k.public_key.to_vec(), k.secret_key.to_vec()].concat()), &bwant);
+        check(out, "keypair.from_slices(vec)", guard(|| KeyPair::<Vec<u8>, Vec<u8>>::from_slices(&bpk, &bsk)).map(|k| [k.public_key.clone(), k.secret_key.clone()].concat()), &bwant);
+    }
 }
